@@ -465,7 +465,7 @@ func TestVerifC15RaceConcurrent(t *testing.T) {
 	m := vk.New(t, "C15", "concurrent rounds (publisher, one streaming pump per watcher, Values() readers, controller: attach/reload/break stream; kinds single-stream, multi-stream, streaming-attach, inflight-reload); after the publisher stopped, all live watchers drained and all watch goroutines parked: plain subscribers equal the model, exclusive subscribers list only values of live keys and every value that only one key ever carried, last listener run saw the final list, no Values() result repeats a value; race detector on")
 	defer m.Done()
 	defer c15Wall(m, time.Now())
-	n := vk.N(300, 6000)
+	n := vk.N(300, 3000)
 	if v, err := strconv.Atoi(os.Getenv("C15_RACE_ROUNDS")); err == nil && v > 0 {
 		n = v // fixed by the run spec (failpoint-widened run), never a time budget
 	}
